@@ -237,7 +237,7 @@ pub fn c17(ctx: &CheckCtx) -> i32 {
     }
     report.stats.samples.push(json!({"exhaustive_types_sample": types.iter().take(12).map(|t| t.render()).collect::<Vec<_>>()}));
     report.extra.insert("exhaustive_subspace".into(), json!({"types": types.len(), "exhaustive": true}));
-    let cases = ctx.cases(1_000_000, 20_000_000);
+    let cases = ctx.cases(4_000_000, 40_000_000);
     let res = search(ctx, "c17", cases, 8, 140, c17_random_case);
     report.absorb(res, &|b| json!({"choices_len": b.len()}));
     report.finish()
@@ -506,7 +506,7 @@ pub fn c06(ctx: &CheckCtx) -> i32 {
         report.stats.nontrivial(format!("exhaustive-{i}").as_bytes());
     }
     report.extra.insert("exhaustive_subspace".into(), json!({"exhaustive": true, "pairs": n}));
-    let cases = ctx.cases(1_500_000, 20_000_000);
+    let cases = ctx.cases(3_000_000, 40_000_000);
     let res = search(ctx, "c06", cases, 8, 120, c06_random_case);
     report.absorb(res, &|b| {
         let mut c = Choices::new(b);
